@@ -34,7 +34,7 @@ theorem validateDefinitions_prefix (env : Env) (t : Tables) (rec : Rec) (ctx : C
     ∃ r, s'.errs = s.errs ++ r := by
   simp only [validateDefinitions] at h
   split at h
-  · simp [raisePy] at h
+  · split at h <;> simp [raisePy] at h
   · split at h
     · simp at h
     · obtain ⟨r, hr⟩ := runQueue_prefix _ _ _ _ h
